@@ -3,7 +3,7 @@
 name="$1"; prop="$2"; tier="${3:-quick}"
 cd /verif
 git -C /repo apply /verif/seeded/$name/patch.diff || { echo "patch does not apply to /repo HEAD"; exit 3; }
-./check $prop --tier $tier > /tmp/runseed.out 2>&1; rc=$?
+VERIF_EVIDENCE_OUT=/tmp/runseed-evidence.json ./check $prop --tier $tier > /tmp/runseed.out 2>&1; rc=$?
 git -C /repo checkout -- . 
 grep -E "^(VIOLATION|UNDECIDED|KNOWN-FINDING|property=)" /tmp/runseed.out | cut -c1-300
 echo "exit=$rc"
